@@ -278,3 +278,29 @@ pub fn arg_num(args: &[String], name: &str, default: u64) -> u64 {
         .map(|v| v.parse().unwrap_or_else(|_| panic!("bad number for {}", name)))
         .unwrap_or(default)
 }
+
+
+/// shipped sources (identifier -> description, url), decoded independently of the library
+pub fn shipped_sources(repo: &str) -> std::collections::BTreeMap<u64, (String, Option<String>)> {
+    #[derive(serde::Deserialize)]
+    struct RawSource {
+        id: u64,
+        description: String,
+        #[serde(default)]
+        url: Option<String>,
+    }
+    #[derive(serde::Deserialize)]
+    struct RawSources {
+        #[serde(default)]
+        sources: Vec<RawSource>,
+    }
+    let mut out = std::collections::BTreeMap::new();
+    if let Ok(f) = std::fs::File::open(format!("{}/db/sources.bin.gz", repo)) {
+        if let Ok(raw) = serde_cbor::from_reader::<RawSources, _>(flate2::read::GzDecoder::new(f)) {
+            for s in raw.sources {
+                out.insert(s.id, (s.description, s.url));
+            }
+        }
+    }
+    out
+}
